@@ -40,6 +40,20 @@ func setupCommon(c *mon.Ctx) error {
 	return nil
 }
 
+// someCertLint names a registered certificate lint for selections that just need "one listed name": e_ca_is_ca when the
+// tree under test has it, otherwise the first certificate lint of the inventory.
+func someCertLint() string {
+	if li, ok := InvBy["e_ca_is_ca"]; ok && li.Kind == corpus.Cert {
+		return "e_ca_is_ca"
+	}
+	for _, li := range Inv {
+		if li.Kind == corpus.Cert {
+			return li.Name
+		}
+	}
+	return "e_ca_is_ca"
+}
+
 func namesOfKind(k corpus.Kind) []string {
 	var out []string
 	for _, li := range Inv {
